@@ -26,18 +26,20 @@ class Uniform(Distribution):
         """
         # First check whether x is outside bounds.
         # It is outside if any coordinate is outside the interval.
-        if np.any(x < self.low) or np.any(x > self.high):
+        low, high = np.asarray(self.low), np.asarray(self.high) # also for list bounds
+        if np.any(x < low) or np.any(x > high):
             # If outside always return -inf
             return_val = -np.inf  
         else:
             # If inside, compute the area and obtain the constant 
             # probability (pdf) as 1 divided by the area, the convert 
             # to logpdf. Special case if scalar.
-            diff = self.high - self.low
-            if isinstance(diff, (list, tuple, np.ndarray)): 
-                v= np.prod(diff)
+            diff = high - low
+            if np.size(diff) == 1 and self.dim is not None and self.dim > 1:
+                # scalar bounds broadcast over all dim coordinates
+                v = np.ravel(diff)[0]**self.dim
             else:
-                v = diff
+                v = np.prod(diff)
             return_val = np.log(1.0/v)
         return return_val
 
@@ -45,7 +47,7 @@ class Uniform(Distribution):
         """
         Computes the gradient of logpdf at the given values of x.
         """
-        if np.any(x < self.low) or np.any(x > self.high):
+        if np.any(x < np.asarray(self.low)) or np.any(x > np.asarray(self.high)):
             return np.NaN*np.ones_like(x)
         else:
             return np.zeros_like(x)
